@@ -233,7 +233,7 @@ def passes_r10_count(entries):
     return rs in ok and cs in ok
 
 
-def graph_instance(rng, nv, ne, signed, loops=True, edges=None, forest_first=None):
+def graph_instance(rng, nv, ne, signed, loops=True, edges=None, forest_first=None, rev=None, forest_order=None, coforest_order=None):
     """random multi(di)graph with a random spanning forest; returns (M, witness_tokens) where M = M(G,T) (signed: with
     arc reversals applied) with rows in a random order of the forest edges and columns in a random order of the others;
     witness_tokens = '1 <graph> <forest ids> <coforest ids> <rev ids>' in the format of GraphModel.dwitness"""
@@ -249,7 +249,8 @@ def graph_instance(rng, nv, ne, signed, loops=True, edges=None, forest_first=Non
     else:
         edges = list(edges)
         ne = len(edges)
-    rev = [e for e in range(ne) if signed and rng.below(3) == 0]
+    if rev is None:
+        rev = [e for e in range(ne) if signed and rng.below(3) == 0]
     arcs = [((v, u) if e in rev else (u, v)) for e, (u, v) in enumerate(edges)]
     # random spanning forest by union-find over a shuffled edge order
     comp = list(range(nv))
@@ -272,6 +273,12 @@ def graph_instance(rng, nv, ne, signed, loops=True, edges=None, forest_first=Non
     fset = set(forest)
     coforest = [e for e in rng.shuffle(list(range(ne))) if e not in fset]
     forest = rng.shuffle(forest)
+    if forest_order is not None:
+        assert sorted(forest_order) == sorted(forest)
+        forest = list(forest_order)
+    if coforest_order is not None:
+        assert sorted(coforest_order) == sorted(coforest)
+        coforest = list(coforest_order)
     adj = {x: [] for x in range(nv)}
     for e in forest:
         u, v = arcs[e]
@@ -1159,6 +1166,103 @@ def regular_cert_lines(rng, count, maxnodes=40):
         c = rand_cfg(rng, algorithm=0, stopflags=False, wantSub=0)
         out.append("%s %s %d %s" % (cfg_line(c), vlib.mat_line(M), tr, w))
     return out
+
+
+def equi_cert_lines(rng, count, maxm=10):
+    """cases of the `equi_cert` api: M = L X with L = elementary row operations applied to a nonsingular diagonal matrix
+    (certificate: the diagonal and the operations, so |det L| is the product of the diagonal) and X a network matrix with
+    its digraph as witness whose columns B form the identity; by EquiUnique.v M is equimodular with determinant gcd |det L|
+    and with no other value.  variant 0 (with requested k none / right / wrong) or 2 (unimodular)."""
+    import vlib
+    out = []
+    for i in range(count):
+        m = 1 + rng.below(4) if i % 3 == 0 else 2 + rng.below(maxm - 1)
+        extra = rng.below(m + 4)
+        n = m + extra
+        nv = m + 1
+        edges = []
+        for v in range(1, nv):
+            u = rng.below(v)
+            edges.append((u, v) if rng.below(2) else (v, u))
+        edges += edges[:m]                              # chord m+a is parallel to tree arc a
+        for _ in range(extra):
+            edges.append((rng.below(nv), rng.below(nv)))
+        revt = [rng.below(3) == 0 for _ in range(m)]
+        rev = [a for a in range(m) if revt[a]] + [m + a for a in range(m) if revt[a]] + \
+              [2 * m + j for j in range(extra) if rng.below(3) == 0]
+        pos = sorted(rng.shuffle(list(range(n)))[:m])   # positions of the identity columns
+        others = rng.shuffle([2 * m + j for j in range(extra)])
+        cof, k = [], 0
+        for j in range(n):
+            if k < m and pos[k] == j:
+                cof.append(m + k)
+                k += 1
+            else:
+                cof.append(others.pop())
+        X, w = graph_instance(rng, nv, len(edges), True, edges=edges, forest_first=list(range(m)), rev=rev,
+                              forest_order=list(range(m)), coforest_order=cof)
+        assert all(X[a][pos[b]] == (1 if a == b else 0) for a in range(m) for b in range(m))
+        big = rng.below(4) == 0
+        variant = 2 if rng.below(3) == 0 else 0
+        if rng.below(2 if variant == 2 else 6) == 0:
+            d = [rng.choice([1, -1]) for _ in range(m)]
+        else:
+            d = [rng.choice([1, 1, 1, -1, 2, 3, -2] if not big else [1, 1, 2, 3, 5, -7]) for _ in range(m)]
+        L = [[d[a] if a == b else 0 for b in range(m)] for a in range(m)]
+        ops = []
+        for _ in range(rng.below(2 * m + 1)):
+            t = rng.choice([0, 0, 0, 1, 2])
+            a, b = rng.below(m), rng.below(m)
+            c = rng.choice([1, -1, 2, -2, 1, -1, 3])
+            if t == 0:
+                if a == b:
+                    continue
+                L[a] = [x + c * y for x, y in zip(L[a], L[b])]
+            elif t == 1:
+                L[a], L[b] = L[b], L[a]
+            else:
+                L[a] = [-x for x in L[a]]
+            ops.append((t, a, b, c))
+        M = [[sum(L[a][q] * X[q][j] for q in range(m)) for j in range(n)] for a in range(m)]
+        kk = 1
+        for x in d:
+            kk *= abs(x)
+        kin = rng.choice([0, 0, kk, kk, kk + 1, max(1, kk - 1), 2 * kk]) if variant == 0 else 0
+        toks = [variant, kin, vlib.mat_line(M), m] + d + [len(ops)] + [x for o in ops for x in o] + \
+               [vlib.mat_line(X), m] + pos + [w]
+        out.append(" ".join(str(t) for t in toks))
+    return out
+
+
+EQUI_CERT_CODES = {1: "malformed record", 450: "equimodularity test failed on a certified matrix",
+                   451: "verdict not written", 452: "verdict differs from the certified determinant gcd",
+                   453: "reported determinant gcd differs from the certified one"}
+
+
+def balanced_cert_lines(rng, count, maxnodes=40):
+    """cases of the `balanced_cert` api: network matrices with their digraph as witness and series-parallel {-1,0,1} matrices
+    (no witness): totally unimodular by NetworkTU.v / SpTU.v, hence balanced by TuBalanced.v - at every size; the submatrix
+    enumeration is exponential, so the sizes stay moderate and seriesParallel is mostly on"""
+    import vlib
+    out = []
+    for i in range(count):
+        sp = 1 if rng.below(4) else 0
+        if i % 2:
+            M = add_sp_lines(rng, [[rng.choice([1, -1])]], (4 + rng.below(40)) if sp else (3 + rng.below(10)), True)
+            w = "0"
+        else:
+            nv = 3 + rng.below(8 if sp else 5)
+            M, w = graph_instance(rng, nv, nv + rng.below(nv + 2), True)
+        if not M or not M[0]:
+            continue
+        M = M if i % 2 == 0 else permute(rng, M)
+        out.append("%d %d %d %s %s" % (rng.choice([0, 0, 1]), sp, rng.below(2), vlib.mat_line(M), w))
+    return out
+
+
+BALANCED_CERT_CODES = {1: "malformed record", 460: "CMRbalancedTest failed on a certified totally unimodular matrix",
+                       461: "verdict not written", 462: "a totally unimodular matrix (certified) is reported not balanced",
+                       463: "a violating submatrix is returned for a totally unimodular matrix"}
 
 
 REGULAR_CERT_CODES = {1: "malformed record", 440: "CMRregularTest failed on a (co)graphic matrix",
